@@ -205,6 +205,75 @@ static void run(vh::Trace& tr, const Sys& s, const Matrix& m, const Inst& in0, c
   }
 }
 
+// Re-use history across data geometries: ONE objective-function object is set up for system A, serves requests, then
+// gets the data, additive term, normalisation and projector pair of system B (another number of TOF bins / segments /
+// views / tangential positions) through the setters, is set up again and serves requests - judged against system B.
+static void run_regeo(vh::Trace& tr, const Sys& sa, const Sys& sb, vh::Rng& rng, int fill) {
+  const Sys* ss[2] = { &sa, &sb };
+  Obj<OF> ob;
+  ob.make(fill);
+  OF& of = *ob.of;
+  // keep everything of both lives alive until the object is gone
+  std::vector<shared_ptr<ProjData>> keep_pd;
+  std::vector<shared_ptr<BinNormalisation>> keep_norm;
+  std::vector<shared_ptr<ProjectorByBinPair>> keep_pp;
+  Opts o;
+  o.additive = rng.coin();
+  o.norm = rng.range(0, 4);
+  o.zero = rng.coin();
+  o.N = rng.range(1, 2);
+  o.uss = rng.coin();
+  o.prior = false;
+  o.cache = rng.coin();
+  o.wrapnorm = false;
+  o.fill = fill;
+  o.family = o.additive ? 1 : 2;
+  o.approx = true;
+  for (int life = 0; life < 2; ++life) {
+    const Sys& s = *ss[life];
+    o.tofsens = s.tof && rng.coin();
+    o.maxseg = rng.range(-1, s.t.proj_data_info->get_max_segment_num());
+    Matrix m = o.family == 2 ? make_matrix(tr, s, rng, 1, 2, true) : make_matrix(tr, s, rng, 2, 2, true);
+    Inst in = make_inst(s, m, rng, o);
+    shared_ptr<Img> lam = image_from(s, in.lam), x = image_from(s, in.x);
+    std::vector<float> yf(in.y.begin(), in.y.end()), af(in.a.begin(), in.a.end());
+    shared_ptr<ProjData> y = make_pd(s, s.t.proj_data_info, yf, false), a;
+    if (o.additive) a = make_pd(s, s.t.proj_data_info, af, false);
+    shared_ptr<RecNorm> rec;
+    shared_ptr<BinNormalisation> norm = make_norm(s, in, &rec);
+    shared_ptr<vh::ExplicitProjMatrix> pm;
+    shared_ptr<ProjectorByBinPair> pp = vh::make_explicit_projector_pair(m.data, shared_ptr<vh::XmObserver>(), &pm);
+    pm->enable_cache(o.cache);
+    keep_pd.push_back(y); keep_pd.push_back(a); keep_norm.push_back(norm); keep_pp.push_back(pp);
+    of.set_proj_data_sptr(y);
+    of.set_projector_pair_sptr(pp);
+    if (o.additive) of.set_additive_proj_data_sptr(a);
+    of.set_normalisation_sptr(norm);
+    of.set_zero_seg0_end_planes(o.zero);
+    of.set_max_segment_num_to_process(o.maxseg);
+    of.set_use_subset_sensitivities(o.uss);
+    of.set_num_subsets(o.N);
+    of.set_use_tofsens(o.tofsens);
+    of.set_recompute_sensitivity(true);
+    emit_system(tr, m);
+    tr.emit(vh::Json("Instance").boolean("reuse", life == 1).boolean("regeo", true).num("sys", m.id).boolean("tof", s.tof).boolean("tofSensAsked", o.tofsens).boolean("tofNorm", false)
+                .boolean("additive", o.additive).str("norm", norm_names[o.norm]).boolean("wrapNorm", false).boolean("zero", o.zero).num("maxSegAsked", o.maxseg)
+                .boolean("uss", o.uss).num("N", o.N).boolean("prior", false).boolean("supplied", false).boolean("cache", o.cache).num("fill", fill).num("family", o.family)
+                .boolean("approx", true).num("numBins", (long)s.bins.size()).arr("lam", in.lam).arr("x", in.x).arr("y", in.y).arr("a", in.a).arr("ef", in.e));
+    std::string msg;
+    bool ok = false;
+    const bool err = vh::threw([&] { ok = of.set_up(lam) == Succeeded::yes; }, &msg);
+    vh::Json js("SetUp");
+    js.boolean("err", err).boolean("ok", ok).boolean("tofSens", of.get_use_tofsens()).num("maxSeg", of.get_max_segment_num_to_process());
+    if (err) js.str("msg", msg.substr(0, 120));
+    norm_uses(js, rec);
+    tr.emit(js);
+    if (err || !ok) return;
+    std::vector<Req> reqs = all_requests(o, rng, true, true);
+    for (const Req& q : reqs) do_request(tr, of, rec, q, *lam, *x, rng);
+  }
+}
+
 static Opts random_opts(const Sys& s, vh::Rng& rng, long i) {
   Opts o;
   o.tofsens = s.tof && rng.coin();
@@ -323,6 +392,23 @@ int main(int argc, char** argv) {
             ++pi;
           } while (std::next_permutation(kinds.begin(), kinds.end()));
         }
+  } else if (mode == "regeo") {
+    // base geometry (8 detectors, 3 rings, 3 tangential positions, 3 TOF bins) against one changed in ONE dimension,
+    // in both directions: more TOF bins, no TOF, fewer segments, more views, more tangential positions
+    std::vector<Sys> g;
+    g.push_back(make_sys_geo(8, 3, 3, 3));
+    g.push_back(make_sys_geo(8, 3, 3, 5));
+    g.push_back(make_sys_geo(8, 3, 3, 0));
+    g.push_back(make_sys_geo(8, 2, 3, 3));
+    g.push_back(make_sys_geo(12, 3, 3, 3));
+    g.push_back(make_sys_geo(8, 3, 5, 3));
+    static const int fills[] = { 0x00, 0xFF, 0x01 };
+    long k = 0;
+    for (long rep = 0; rep < count; ++rep)
+      for (size_t v = 1; v < g.size(); ++v) {
+        run_regeo(tr, g[0], g[v], rng, fills[k++ % 3]);
+        run_regeo(tr, g[v], g[0], rng, fills[k++ % 3]);
+      }
   } else if (mode == "setters") {
     // set-up protocol: every public setter x non-TOF / TOF x storage fill patterns
     for (long rep = 0; rep < count; ++rep)
